@@ -75,7 +75,7 @@ func runC04(e *Env) {
 	}
 	var pays []*c04Payload
 	for i := 0; i < n; i++ {
-		size := c04Sizes[e.P(len(c04Sizes))]
+		size := e.PSize(c04Sizes, 66000)
 		if spec.Kind == fkFixed {
 			size = spec.Fixed
 		} else if e.P(4) == 3 {
